@@ -319,11 +319,63 @@ func c12Strconv(c *Ctx) {
 		}
 		add(c.CaseID("c12-fg", i), "char fg "+encF(f), hx([]byte(strconv.FormatFloat(f, 'g', -1, 64))))
 	}
+	// parseInt vs strconv.ParseInt(s, 10, 64) (error dropped) and F64.toInt64 vs Go's int64(float64) on this platform
+	pi := func(id, s string) {
+		n, _ := strconv.ParseInt(s, 10, 64)
+		add(id, "char pi "+hx([]byte(s)), fmt.Sprint(n))
+	}
+	for i, s := range interestingStrings {
+		if utf8.ValidString(s) {
+			pi(c.CaseID("c12-pi-fixed", i), s)
+		}
+	}
+	ialpha := []byte("0123456789+-_ .e")
+	for i := 0; i < c.Pick(1500, 30000); i++ {
+		r := c.CaseRng("c12-pi", i)
+		var s string
+		switch r.Intn(3) {
+		case 0:
+			b := make([]byte, r.Intn(7))
+			for k := range b {
+				b[k] = ialpha[r.Intn(len(ialpha))]
+			}
+			s = string(b)
+		case 1:
+			s = fmt.Sprint(int64(r.Uint64()))
+			if r.Intn(3) == 0 {
+				s = "+" + strings.TrimPrefix(s, "-")
+			}
+		default: // around the ends of the int64 range and beyond
+			s = []string{"", "-", "+"}[r.Intn(3)] + fmt.Sprintf("922337203685477580%d", r.Intn(10)) + []string{"", "0", "x"}[r.Intn(3)]
+		}
+		pi(c.CaseID("c12-pi", i), s)
+	}
+	for i := 0; i < c.Pick(1500, 30000); i++ {
+		r := c.CaseRng("c12-fi", i)
+		f := math.Float64frombits(r.Uint64())
+		switch r.Intn(4) {
+		case 0:
+			f = interestingNumbers[r.Intn(len(interestingNumbers))]
+		case 1:
+			f = float64(r.Intn(400)-200) + []float64{0, 0.5, -0.5, 0.999}[r.Intn(4)]
+		case 2:
+			f = math.Ldexp(float64(r.Intn(1<<20)+1), r.Intn(70)-10) * float64(1-2*r.Intn(2)) // around 2^63
+		}
+		if math.IsNaN(f) {
+			continue
+		}
+		add(c.CaseID("c12-fi", i), "char fi "+encF(f), fmt.Sprint(int64(f)))
+	}
 	got := c.Model(lines)
 	for i := range lines {
 		stream := "c12-strconv-format"
 		if strings.HasPrefix(lines[i], "char pf") {
 			stream = "c12-strconv-parse"
+		}
+		if strings.HasPrefix(lines[i], "char pi") || strings.HasPrefix(lines[i], "char fi") {
+			c.Same("c12-strconv-int", ids[i], lines[i], got[i], want[i])
+			c.Count(lines[i], want[i] != "0", "c12-strconv-int:"+lines[i][5:7])
+			continue
 		}
 		c.Same(stream, ids[i], lines[i], got[i], want[i])
 		kind := "finite"
